@@ -389,3 +389,65 @@ def _c12_nonrecord(fa, v, case, data, one_case, sh, seed):
 witness("C12", "piecewise-nonrecord-toplevel-has-no-name-table", (
     {"type": "array", "items": {"type": "record", "name": "Child", "namespace": "x", "fields": [{"name": "a", "type": "int"}]}},
     [[{"a": 1}]], ["x.Child"]))
+
+
+# ======================================================================
+# C20 — data generation on recursive schemas
+# ======================================================================
+@classifier("C20", "generate-unbounded-recursion")
+def _c20_recursion(fa, v, case, recs, one_schema, sh, seed):
+    """utils.gen_data recurses without a depth bound: every array/map gets 10
+    items, so a type that refers to itself through an array or map never
+    terminates (RecursionError); through ['null', T] unions termination is only
+    probabilistic."""
+    import random
+
+    js = case["schema"]
+    if "recursive" not in schema_traits(js):
+        return False
+    # signatures of unbounded generation: the generator blows the stack, or it
+    # returns a value so large that a later step trips the call watchdog
+    if not ((v[0] == "generate-raised" and ("RecursionError" in v[1] or "HangError" in v[1])) or "HangError" in v[1]):
+        return False
+    js2 = derecurse(js)
+    r = random.Random(seed)
+    return one_schema(sh.__class__("C20", {}), fa, r, js2, set()) is None
+
+
+witness("C20", "generate-unbounded-recursion",
+        {"type": "record", "name": "Tree", "fields": [{"name": "v", "type": "int"}, {"name": "kids", "type": {"type": "array", "items": "Tree"}}]})
+
+
+def strip_logical(js):
+    """Remove logical-type annotations everywhere (the underlying types stay)."""
+    if isinstance(js, list):
+        return [strip_logical(b) for b in js]
+    if isinstance(js, dict):
+        out = {k: v for k, v in js.items() if k not in ("logicalType", "precision", "scale")}
+        t = js.get("type")
+        if t == "array":
+            out["items"] = strip_logical(js["items"])
+        elif t == "map":
+            out["values"] = strip_logical(js["values"])
+        elif t in ("record", "error"):
+            out["fields"] = [dict(f, type=strip_logical(f["type"])) for f in js.get("fields", [])]
+        return out
+    return js
+
+
+@classifier("C20", "generated-raw-value-lands-in-narrower-logical-branch")
+def _c20_logical_branch(fa, v, case, recs, one_schema, sh, seed):
+    """gen_data emits raw integers / bytes for logical-typed leaves.  Inside a
+    union the writer may route such a value (e.g. a record of raw longs) to
+    another conforming branch (a map of timestamp-millis) whose logical type has
+    a narrower domain, and the reader's conversion then overflows."""
+    import random
+
+    js = case["schema"]
+    if v[0] not in ("value-not-readable", "values-not-readable"):
+        return False
+    if "logicalType" not in json.dumps(js):
+        return False
+    if not any(x in v[1] for x in ("OverflowError", "ValueError", "out of range")):
+        return False
+    return one_schema(sh.__class__("C20", {}), fa, random.Random(seed), strip_logical(js), set()) is None
